@@ -25,5 +25,9 @@ PAIRS = [
   # history / entry (back vs back11 share the header for the policies)
   ('back.do_entry', 'back11.do_entry', ('cascade_back.spec.h', 'do_entry'), ('cascade_back.spec.h', 'do_entry')),
   ('back.do_exit', 'back11.do_exit', ('cascade_back.spec.h', 'do_exit'), ('cascade_back.spec.h', 'do_exit')),
+  # public entry: process_event is a direct call in every back-end and returns the result of the step
+  ('back.process_event', 'back11.process_event', ('api_back.spec.h', 'api_process_event'), ('api_back.spec.h', 'api_process_event')),
+  ('back.process_event', 'backmp11.process_event', ('api_back.spec.h', 'api_process_event'), ('api_mp11.spec.h', 'api_process_event')),
+  ('back.start', 'back11.start', ('cascade_back.spec.h', 'start_unit'), ('cascade_back.spec.h', 'start_unit')),
   ('back.do_copy.queues_empty', 'back11.do_copy.queues_empty', ('copy_serialize.spec.h', 'do_copy'), ('copy_serialize.spec.h', 'do_copy')),
 ]
